@@ -85,7 +85,8 @@ func (m *MonC09) OnLog(w *World, e *LogEntry) {
 		}
 		if strings.HasPrefix(e.Subject, "get.") {
 			if m.live[n] == 0 {
-				m.violate(w, "get_without_subscription", "get.%s requested at t=%d without a live event subscription established before it", n, e.T)
+				m.viols = append(m.viols, Violation{Property: "C09", Class: "get_without_subscription", Step: e.Step, T: e.T, Conn: -1, RID: n,
+					Message: fmt.Sprintf("get.%s requested at t=%d without a live event subscription established before it", n, e.T)})
 			}
 		}
 	case "mq_ev":
